@@ -55,6 +55,88 @@ def corrupt_len(run):
     return None
 
 
+def _corrupt_field(op, field, what=None):
+    """corruptor: first event `op` (optionally with e['what'] == what) whose list field has an element to change"""
+    def f(run):
+        for e in run:
+            if e.get("op") == op and (what is None or e.get("what") == what) and isinstance(e.get(field), list) and e[field]:
+                v = list(e[field])
+                k = len(v) // 2
+                v[k] = (v[k] + "7") if isinstance(v[k], str) else v[k]
+                e[field] = v
+                return run
+        return None
+    return f
+
+
+def corrupt_back(run):
+    for e in run:
+        if e.get("op") == "back" and e.get("how") == "value":
+            e["r"] = [e["r"][0] + "1"]
+            return run
+    return None
+
+
+def corrupt_back_empty(run):
+    """back() on an empty vector (refused by the code) turned into a value"""
+    for e in run:
+        if e.get("op") == "back" and e.get("how") != "value":
+            e["r"] = ["0"]
+            e["how"] = "value"
+            return run
+    return None
+
+
+def corrupt_clear(run):
+    for e in run:
+        if e.get("op") == "clear":
+            e["n"] = 1
+            return run
+    return None
+
+
+def corrupt_is_empty(run):
+    for e in run:
+        if e.get("op") == "len" and "empty" in e:
+            e["empty"] = not e["empty"]
+            return run
+    return None
+
+
+def corrupt_resize_prefix(run):
+    for e in run:
+        if e.get("op") == "resize" and e.get("n", 0) >= 2 and len(e.get("out", [])) >= 2:
+            out = list(e["out"])
+            out[0] = out[0] + "3"
+            e["out"] = out
+            return run
+    return None
+
+
+def corrupt_block(run):
+    n = 0
+    for e in run:
+        if e.get("op") == "readback":
+            n = e.get("n", 0)
+        # (only elements inside the vector are specified: the padding of the last block is not)
+        if e.get("op") == "readblocks" and n >= 3 and len(e.get("out", [])) >= 3:
+            out = list(e["out"])
+            out[1] = out[1] + "1"
+            e["out"] = out
+            return run
+    return None
+
+
+def corrupt_get2(run):
+    for e in run:
+        if e.get("op") == "readback2" and len(e.get("out", [])) >= 2:
+            out = [list(x) for x in e["out"]]
+            out[-1][1] = out[-1][1] + "1"
+            e["out"] = out
+            return run
+    return None
+
+
 def _short(e, k=8):
     e = dict(e)
     for f in ("xs", "out", "g"):
@@ -107,6 +189,25 @@ def run(ctx):
     ctx.selftest_corrupt(TRACE, clean[0], corrupt_readback_element, "one element of a complete read-back changed")
     ctx.selftest_corrupt(TRACE, clean[0], corrupt_oob_into_value, "an out-of-range probe (refused by the code) turned into a value")
     ctx.selftest_corrupt(TRACE, clean[0], corrupt_len, "len() result changed by +1")
+    # one corruption per event kind of the further entry points (back, resize, clear, clone / shrink_to_fit /
+    # inner view, swap, is_empty) and of the other batch reads (get2, get_block)
+    zi = [p for p in b1files if "ps-zipint-" in os.path.basename(p)][:1] or b1files[:1]
+    so = [p for p in b1files if "ps-sorted_default-" in os.path.basename(p)][:1] or b1files[:1]
+    clean = [p for p in b1files if "ps-uintvec-" in os.path.basename(p)][:1] or b1files[:1]
+    for mut, what in [
+        (corrupt_back, "back(): returned value changed"),
+        (corrupt_back_empty, "back() on an empty vector (refused by the code) turned into a value"),
+        (corrupt_resize_prefix, "resize(): an element of the preserved prefix changed"),
+        (corrupt_clear, "clear(): length afterwards reported as 1"),
+        (corrupt_is_empty, "is_empty() flipped"),
+        (_corrupt_field("maintain", "out", "clone"), "clone(): one element of the clone's read-back changed"),
+        (_corrupt_field("maintain", "out", "shrink_to_fit"), "shrink_to_fit(): one element of the read-back afterwards changed"),
+        (_corrupt_field("maintain", "out", "inner+min_val"), "inner() + min_val() view: one element changed"),
+        (_corrupt_field("swap", "out"), "swap(): one element of the read-back after the swap changed"),
+        (corrupt_get2, "get2 read-back: second component of the last pair changed"),
+    ]:
+        ctx.selftest_corrupt(TRACE, zi[0], mut, what)
+    ctx.selftest_corrupt(TRACE, so[0], corrupt_block, "get_block read-back: one element changed")
     # --- evidence
     cov = ctx.cov
     cov["evaluations"] = s1.get("events", 0) + s2.get("events", 0) + s2.get("executions", 0)
@@ -135,11 +236,15 @@ def run(ctx):
                    "succeeded, so that the complete read-back (every element through get, and get2 / fast_get / get_block where "
                    "offered) plus >= 13 out-of-range probes were judged by TLC against PackedSeq.tla; subjects = container type x "
                    "element type x constructor / configuration x block size; profiles = %d value profiles x lengths "
-                   "0,1,2,63,64,65,127,128,129,255,256,257,1000 (+10000,10001 rotating; thorough: all and 70000); cases are distinct by "
+                   "0,1,2,63,64,65,127,128,129,255,256,257,1000 (+10000,10001 rotating; thorough: all and 70000), plus the width sweeps "
+                   "(for every bit width 1..64 the container can choose: w<k> range of exactly k bits with the top bit set, dw<k> sorted with "
+                   "k-bit deltas, bs<k> block bases of k bits, lengths 67/99/131 and 1029..1174; SortedUintVec: every sample_width 16..64 x "
+                   "offset widths 8..32 x use_simd x block size), construction-route twins (new+set, resize_with_*+set, risk_set_data, "
+                   "with_capacity, extend, with_pool) and the further entry points (back, resize, shrink_to_fit, clone, inner view, swap, clear); cases are distinct by "
                    "construction (different subject or different generated input); empty inputs and refused builds are not counted.  "
                    "B2: (subject, concretisation, history) for every history of %s successful push/set operations over 3 abstract values "
                    "generated by TLC from MC_PackedSeqGen, content after every step compared for equality with the TLC-computed one; "
-                   "mismatching and sampled histories judged by TLC." % (16, "6" if ctx.thorough else "5"))
+                   "mismatching and sampled histories judged by TLC." % (17, "6" if ctx.thorough else "5"))
     for p in (clean[:1] + [q for q in b1files if "intvec_i64" in q][:1] + [q for q in b1files if "sorted_default" in q][:1]):
         _sample_runs(ctx, p, want=1)
     if b2files:
